@@ -12,9 +12,9 @@ import (
 func TestCheck(t *testing.T) {
 	crashkit.MaybeChild()
 	r := runner.Start("C01", "fault_enumeration")
-	scens := []crashkit.Scenario{{Name: "app", Script: "app"}, {Name: "wal", Script: "wal"}}
+	scens := []crashkit.Scenario{{Name: "open+app", Script: "app", ArmEarly: true}, {Name: "wal", Script: "wal"}}
 	if r.Thorough() {
-		scens = append(scens, crashkit.Scenario{Name: "open+app", Script: "app", ArmEarly: true}, crashkit.Scenario{Name: "lease", Script: "lease"})
+		scens = append(scens, crashkit.Scenario{Name: "lease", Script: "lease"})
 	}
 	genLen := runner.Pick(r, 2, 4)
 	crashkit.Deadline = r.Deadline(80*time.Second, 14*time.Minute)
@@ -25,6 +25,6 @@ func TestCheck(t *testing.T) {
 	r.Assume("process death only (page cache survives): crash points are 'before each file-mutating syscall SQLite issues' (write/pwrite64/fsync/ftruncate/unlink/rename/openat|O_CREAT ...); power loss (dropping un-fsynced writes) is not modelled")
 	r.Assume("acknowledgement = first WriteHeader/Write on the ResponseWriter (earliest possible instant)")
 	r.Assume("interleavings of concurrent requests are explored at store level by C03/C12; here the history is sequential")
-	r.Set("rule", "for each scripted history (ingress on a pull route and on a 2-target fan-out route, Admin publish incl. a refused duplicate batch, pull dequeue/ack/nack/dead-letter/batch ack, explicit WAL checkpoints; thorough: also crash points inside open+migrate and a lease-centred history; plus EVERY history of length 2 (thorough: 4, within the time budget) over {ingress pull, ingress fan-out, publish 2 items, dequeue 2, ack, nack, dead-letter the oldest unused lease}) the child process is SIGKILLed before its n-th file-mutating SQLite syscall for every n; the parent restarts through the production boot path and requires: database opens, integrity_check ok, counters consistent, contents equal one of the admissible outcomes (acknowledged operations exactly, the one unacknowledged operation applied / not applied / fan-out prefix), every unsettled message offered again exactly once after lease expiry with identical payload and headers; non-trivial = distinct (scenario, last started operation, inside/between) classes")
+	r.Set("rule", "for each scripted history (ingress on a pull route and on a 2-target fan-out route, Admin publish incl. a refused duplicate batch, pull dequeue/ack/nack/dead-letter/batch ack, explicit WAL checkpoints; crash points inside the first open + migrate of the database included; thorough: also a lease-centred history; plus EVERY history of length 2 (thorough: 4, within the time budget) over {ingress pull, ingress fan-out, publish 2 items, dequeue 2, ack, nack, dead-letter the oldest unused lease}) the child process is SIGKILLed before its n-th file-mutating SQLite syscall for every n; the parent restarts through the production boot path and requires: database opens, integrity_check ok, counters consistent, contents equal one of the admissible outcomes (acknowledged operations exactly, the one unacknowledged operation applied / not applied / fan-out prefix), every unsettled message offered again exactly once after lease expiry with identical payload and headers; non-trivial = distinct (scenario, last started operation, inside/between) classes")
 	r.Finish()
 }
